@@ -1070,3 +1070,59 @@ def _(I, ctx, o): return ListIt(list(o.fields))
 @model('re:^(std::result::)?Result::(iter|into_iter)$')
 def _(I, ctx, o):
     o0 = deref(o); return ListIt([FieldRef(o0, 0)] if o0.variant == 'Ok' else [])
+
+
+def cmp_values(I, ctx, a, b):
+    """three-way comparison of two values -> -1/0/1 (forks on symbolic data); aggregates use their own Ord impl"""
+    a0, b0 = deref(a), deref(b)
+    if isinstance(a0, BV):
+        return {'Less': -1, 'Equal': 0, 'Greater': 1}[I.binop(ctx, 'Cmp', a0, b0).variant]
+    if isinstance(a0, bool) or isinstance(b0, bool):
+        return (int(bool(a0)) > int(bool(b0))) - (int(bool(a0)) < int(bool(b0)))
+    if isinstance(a0, Agg) and a0.name == 'tuple':
+        for x, y in zip(a0.fields, b0.fields):
+            c = cmp_values(I, ctx, x, y)
+            if c: return c
+        return 0
+    if isinstance(a0, Agg) and a0.name == 'Option':
+        if a0.variant != b0.variant: return -1 if a0.variant == 'None' else 1
+        return 0 if a0.variant == 'None' else cmp_values(I, ctx, a0.fields[0], b0.fields[0])
+    if isinstance(a0, Agg):
+        o = I.call(ctx, ctx.cur_crate, f'<{a0.name} as Ord>::cmp', [ValRef(a0), ValRef(b0)])
+        return {'Less': -1, 'Equal': 0, 'Greater': 1}[o.variant]
+    if isinstance(a0, (StrV, SliceV, VecV, list)):
+        xa, xb = seq_items(a0), seq_items(b0)
+        for x, y in zip(xa, xb):
+            c = cmp_values(I, ctx, x, y)
+            if c: return c
+        return (len(xa) > len(xb)) - (len(xa) < len(xb))
+    raise Unsupported('comparison of ' + repr(a0)[:40])
+
+
+def _stable_sort(I, ctx, l, lo, hi, less):
+    items = l[lo:hi]; out = []
+    for x in items:
+        k = len(out)
+        while k > 0 and less(x, out[k - 1]): k -= 1
+        out.insert(k, x)
+    l[lo:hi] = out
+
+
+@model('re:^(?:core|std|alloc)::slice::<impl \\[.*\\]>::(sort|sort_unstable)$')
+def _(I, ctx, r):
+    l, lo, hi = seq_view(r)
+    _stable_sort(I, ctx, l, lo, hi, lambda a, b: cmp_values(I, ctx, a, b) < 0); return UNIT
+@model('re:^(?:core|std|alloc)::slice::<impl \\[.*\\]>::(sort_by_key|sort_unstable_by_key|sort_by_cached_key)$')
+def _(I, ctx, r, f):
+    l, lo, hi = seq_view(r)
+    keys = {}
+    def key(x):
+        if id(x) not in keys: keys[id(x)] = I.call_value(ctx, ctx.cur_crate, f, [ValRef(x)])
+        return keys[id(x)]
+    _stable_sort(I, ctx, l, lo, hi, lambda a, b: cmp_values(I, ctx, key(a), key(b)) < 0); return UNIT
+@model('re:^(?:core|std|alloc)::slice::<impl \\[.*\\]>::(sort_by|sort_unstable_by)$')
+def _(I, ctx, r, f):
+    l, lo, hi = seq_view(r)
+    _stable_sort(I, ctx, l, lo, hi, lambda a, b: I.call_value(ctx, ctx.cur_crate, f, [ValRef(a), ValRef(b)]).variant == 'Less'); return UNIT
+@model('re:^(?:core|std|alloc)::slice::<impl \\[.*\\]>::(binary_search_by_key|binary_search_by|binary_search)$')
+def _(I, ctx, r, *a): raise Unsupported('binary search')
